@@ -360,7 +360,7 @@ func oracleStream(prop string, mr *muxRun, rs *reqState, cnt *[core.NumCounters]
 		return v
 	}
 	sp := rs.spec
-	l := &rs.hlog
+	l := rs.log()
 	ctx := mr.contextKey(rs)
 	resp := rs.q.response()
 	fault := sp.Fault.Kind
@@ -510,9 +510,18 @@ func oracleStream(prop string, mr *muxRun, rs *reqState, cnt *[core.NumCounters]
 				return fail("response-mismatch", "client message #%d differs: got %s want %s", i, msgPreview(got), msgPreview(want))
 			}
 		}
+		wantMsgs := l.Sent
+		if sp.Backend != "" && !rs.method.ServerS && l.Returned && l.RetCode != codes.OK {
+			// gRPC semantics of a direct call: a unary-response RPC that ends
+			// with a non-OK status yields the status only
+			wantMsgs = 0
+		}
+		if sp.Proto == "http" && !rs.method.ServerS && l.Returned && l.RetCode != codes.OK {
+			wantMsgs = len(cv.Msgs) // unframed body followed by the error rendering: not judged
+		}
 		if !writeFault {
-			if len(cv.Msgs) != l.Sent {
-				return fail("response-count", "handler sent %d messages successfully, client decoded %d (trailing %d bytes: %s)", l.Sent, len(cv.Msgs), len(cv.Trailing), hexPreview(cv.Trailing, 32))
+			if len(cv.Msgs) != wantMsgs {
+				return fail("response-count", "handler sent %d messages successfully (client should see %d), client decoded %d (trailing %d bytes: %s)", l.Sent, wantMsgs, len(cv.Msgs), len(cv.Trailing), hexPreview(cv.Trailing, 32))
 			}
 			okStatus := l.Returned && l.RetCode == codes.OK
 			if len(cv.Trailing) > 0 && (sp.Proto != "http" || okStatus) {
@@ -566,7 +575,7 @@ func msgPreview(m proto.Message) string {
 // oracleHTTPBodyRecv: HttpBody chunk streaming over HTTP (§6.1 (c)).
 func oracleHTTPBodyRecv(prop string, mr *muxRun, rs *reqState, fail func(string, string, ...any) *Violation, cnt *[core.NumCounters]int) *Violation {
 	sp := rs.spec
-	l := &rs.hlog
+	l := rs.log()
 	limit := mr.sc.Knobs.MaxRecv
 	upload := rs.wire
 	if sp.Compress {
